@@ -13,6 +13,7 @@ import lightworks as lw
 from lightworks import emulator as emu
 
 from .. import seams
+from ..ops import val
 from . import Monitor
 
 READ_OPS = ("read_dist", "sample", "sample_n_inputs", "sample_n_outputs",
@@ -243,15 +244,64 @@ class FreshMonitor(Monitor):
             ps = None if op.get("ps") is None else w.pool["ps"].get(op["ps"])
             m = f.sample_N_inputs if k == "sample_n_inputs" else f.sample_N_outputs
             return m(op["n"], post_select=ps, min_detection=op.get("md", 0),
-                     seed=op["seed"])
+                     seed=val(w, op["seed"]))
         if k == "quick_n_outputs":
-            return f.sample_N_outputs(op["n"], seed=op["seed"])
+            return f.sample_N_outputs(op["n"], seed=val(w, op["seed"]))
         ins = [lw.State(list(x)) for x in op["inputs"]]
         exp = None
         if op.get("expected") is not None:
             exp = {lw.State(list(kk)): [lw.State(list(x)) for x in v]
                    for kk, v in op["expected"]}
         return f.analyze(ins if len(ins) > 1 else ins[0], exp)
+
+    def pristine_check(self, sig, kind, op, s, lres):
+        """The same question asked of a process without the run's history."""
+        import pickle  # noqa: PLC0415
+
+        w = self.w
+        srv = w.extra.get("pristine")
+        if srv is None or kind not in ("sam", "qs"):
+            return []
+        from ..engine import h_seed  # noqa: PLC0415
+        if h_seed("pristine", w.step, op["s"]) % 3:
+            return []
+        try:
+            req = {"kind": kind, "circuit": pickle.dumps(s.circuit, protocol=4),
+                   "state": list(s.input_state.s)}
+            if kind == "sam":
+                src, det = s.source, s.detector
+                req["source"] = (src.purity, src.brightness,
+                                 src.indistinguishability,
+                                 src.probability_threshold)
+                req["detector"] = (det.efficiency, det.p_dark, det.photon_counting)
+                req["backend"] = s.backend.backend
+            else:
+                ps = s.post_select
+                tn = type(ps).__name__
+                if tn == "PostSelection":
+                    req["rules"] = [[list(r_.modes), list(r_.n_photons)]
+                                    for r_ in ps.rules]
+                    req["multi"] = ps.multi_rules
+                elif tn != "DefaultPostSelection":
+                    return []         # predicates do not travel
+                req["pnr"] = s.photon_counting
+            ans = srv.ask(req)
+        except Exception:  # noqa: BLE001
+            w.probe("pristine_unavailable")
+            return []
+        w.probe("pristine_compared")
+        if ans[0] != "ok":
+            return [self.v({**sig, "kind": "pristine_process_raises",
+                            "exc": ans[1]},
+                           f"{kind}:{op['s']}: a fresh object in a process "
+                           f"without this run's history raises {ans[1]}: {ans[2]}")]
+        pres = {__import__("lightworks").State(list(k_)): v_ for k_, v_ in ans[1].items()}
+        if not dist_equal(lres, pres):
+            return [self.v({**sig, "kind": "distribution_depends_on_process_history"},
+                           f"{kind}:{op['s']}: the distribution differs from "
+                           "the one a fresh object reports in a process where "
+                           "nothing else has happened")]
+        return []
 
     def compare(self, sig, k, kind, op, s, f, lres, fres):
         what = f"{kind}:{op['s']}"
@@ -261,7 +311,7 @@ class FreshMonitor(Monitor):
                                f"{what}: cached distribution differs from a "
                                f"fresh object's ({len(lres)} vs {len(fres)} "
                                "outcomes)")]
-            return []
+            return self.pristine_check(sig, kind, op, s, lres)
         if k == "sample":
             if lres != fres:
                 return [self.v({**sig, "kind": "sample_differs"},
